@@ -914,6 +914,72 @@ def r11_7(prog, rep):
         rep.broken_("rule=R11.7 expected >=3 (method, answered verb) outcomes, found %d" % n)
 
 
+def r11_8(prog, rep, rid="R11.8"):
+    """A connection record carries the peer's credentials, its buffer and its parser state: the allocator must hand out a record that
+    is free.  make_conn() is walked with the free-mask fixed (all free, the lower half busy, one record free at either end of each half,
+    none free, ...): the record returned must be one whose bit was set, exactly that bit must be cleared, and NULL comes back only
+    when no bit is set."""
+    f = prog.fn("make_conn", DAEMON)
+    cfg = f.cfg
+    masks = [(1 << 64) - 1, 0xffffffff00000000, 1 << 63, 1 << 32, 1 << 31, 1, 0, 0x00000000fffffffe, 0x8000000000000001,
+             0xfffffffe00000000, 0x0000000100000000 | (1 << 40)]
+    gl = None
+    for b_ in cfg.blocks.values():
+        for e_ in b_.elems:
+            for n in walk(e_["x"]):
+                if n.get("k") == "bin" and n.get("op") in ("^=", "&=", "|=", "=") and strip_casts(n["l"]).get("dk") == "global":
+                    gl = lv(n["l"])
+    if gl is None:
+        raise AnalysisBroken("make_conn: the mask of free records is not written")
+
+    def call_eval(c, store):
+        nm = c.get("fn") or ""
+        a = [eval_in(store, cfg.resolve(a_), f, call_eval) for a_ in c.get("a", [])]
+        if nm in ("ffs", "__builtin_ffs", "ffsl", "__builtin_ffsl", "ffsll", "__builtin_ffsll") and a and a[0] is not None:
+            w = 32 if nm.endswith("ffs") else 64
+            v = a[0] & ((1 << w) - 1)
+            return 0 if v == 0 else (v & -v).bit_length()
+        if nm in ("__builtin_ctz", "__builtin_ctzl", "__builtin_ctzll") and a and a[0]:
+            return (a[0] & -a[0]).bit_length() - 1
+        return None
+    bad = []
+    for m in masks:
+        outs = []
+
+        def effect(b, i, x, store):
+            if isinstance(x, dict) and x.get("k") == "ret" and x.get("e") is not None:
+                e = strip_casts(cfg.resolve(x["e"]))
+                if int_value(e) == 0:
+                    outs.append((None, store.get(gl)))
+                elif e.get("k") == "bin" and e["op"] == "+":
+                    outs.append((eval_in(store, e["r"], f, call_eval), store.get(gl)))
+                elif e.get("k") == "un" and e["op"] == "&" and strip_casts(e["e"]).get("k") == "idx":
+                    outs.append((eval_in(store, strip_casts(e["e"])["i"], f, call_eval), store.get(gl)))
+                else:
+                    outs.append(("?", store.get(gl)))
+            return None
+        w = AbsWalk(f, {l_["n"] for l_ in f.locals} | {gl}, init={gl: m}, effect=effect, call_eval=call_eval, max_states=5000)
+        w.run()
+        if len(set(outs)) != 1 or outs[0][0] == "?" or outs[0][1] is None:
+            raise AnalysisBroken("make_conn: no single outcome for the free-mask %#x (%s)" % (m, outs[:3]))
+        ix, post = outs[0]
+        if m == 0:
+            if ix is not None or post != 0:
+                bad.append("with no record free it returns record %s" % ix)
+        elif ix is None:
+            bad.append("with the free-mask %#018x it refuses although a record is free" % m)
+        elif not (0 <= ix < 64) or not (m >> ix) & 1:
+            bad.append("with the free-mask %#018x it hands out record %s, which is in use: two peers share one record, and the second "
+                       "one's credentials, buffer and parser state replace the first one's" % (m, ix))
+        elif post != m ^ (1 << ix):
+            bad.append("with the free-mask %#018x it hands out record %d but leaves the mask at %#018x" % (m, ix, post))
+    key = "make_conn/hands-out-a-free-record"
+    if bad:
+        rep.fail(rid, key, f.loc(), "; ".join(bad[:3]), {"cases": bad})
+    else:
+        rep.ok(rid, key, f.loc(), "%d free-masks: the record handed out is free and exactly its bit is cleared" % len(masks))
+
+
 def _loop_heads(f):
     return set(f.cfg.natural_loops())
 
@@ -939,6 +1005,8 @@ def run(prog, rep, tier, snap):
     rep.call(r11_6, prog, rep)
     rep.rule("R11.7", "the reply names the task of the request: the oid is set for every answered verb", 3)
     rep.call(r11_7, prog, rep)
+    rep.rule("R11.8", "the connection allocator hands out a record that is free (value-fixed walk over free-masks)", 1)
+    rep.call(r11_8, prog, rep)
 
     from . import c05
     rep.rule("R05.10", "a run-as or owner name inherited from the calendar level is the event's own copy, not freed memory (shared with C05)", 3)
